@@ -82,6 +82,12 @@ Definition env_get (k : text) (r : request) : option text := lookup k (r_env r).
 Definition with_query (r : request) (q : list (text * text)) : request :=
   mkReq (r_env r) (r_post r) q (r_stored r) (r_fresh r) (r_cb r) (r_v6 r).
 
+(* the same request with another QUERY_STRING entry in the environ *)
+Definition k_QUERY_STRING : text := [81; 85; 69; 82; 89; 95; 83; 84; 82; 73; 78; 71].
+Definition with_query_string (r : request) (v : text) : request :=
+  mkReq (map (fun kv => if text_eqb (fst kv) k_QUERY_STRING then (k_QUERY_STRING, v) else kv) (r_env r))
+        (r_post r) (r_query r) (r_stored r) (r_fresh r) (r_cb r) (r_v6 r).
+
 (* webob.headers._trans_name *)
 Definition trans_name (name : text) : text :=
   let n := upper name in
@@ -377,7 +383,27 @@ Definition view_outcome_p (pr : params) (c : config) (r : request) : outcome :=
 Definition view_outcome (c : config) (r : request) : outcome := view_outcome_p (the_params (c_storage c)) c r.
 
 (* ================================================================== declarative specification *)
-(* the property's wording, phrased without the code's control flow *)
+(* The property's wording, phrased without the code's control flow and with ITS OWN literals
+   (documented names, defaults and strings).  The model above uses the regenerated constants;
+   Proofs/C12.v shows they coincide, so a changed constant breaks a proof while this
+   specification keeps judging the implementation by the documented behaviour. *)
+Definition s_https : text := [104; 116; 116; 112; 115].            (* "https" *)
+Definition s_null : text := [110; 117; 108; 108].                   (* "null" *)
+Definition s_origin_hdr : text := [79; 114; 105; 103; 105; 110].   (* "Origin" *)
+Definition s_token : text := [99; 115; 114; 102; 95; 116; 111; 107; 101; 110].   (* "csrf_token" *)
+Definition s_header : text := [88; 45; 67; 83; 82; 70; 45; 84; 111; 107; 101; 110].   (* "X-CSRF-Token" *)
+Definition s_safe : list text := [[71; 69; 84]; [72; 69; 65; 68]; [79; 80; 84; 73; 79; 78; 83]; [84; 82; 65; 67; 69]].   (* GET HEAD OPTIONS TRACE *)
+Definition s_80 : text := [56; 48].
+Definition s_443 : text := [52; 52; 51].
+
+(* options in force: documented defaults of csrf_view (nothing configured) and of set_default_csrf_options *)
+Definition spec_effective (c : config) : options :=
+  match c_defaults c with
+  | None => mkOptions false (Some s_token) (Some s_header) s_safe true false false
+  | Some d => mkOptions (dflt (d_require d) true) (dflt (d_token d) (Some s_token))
+                        (dflt (d_header d) (Some s_header)) (dflt (d_safe d) s_safe)
+                        (dflt (d_check_origin d) true) (dflt (d_allow_no_origin d) false) (d_callback d)
+  end.
 
 (* host matching as documented *)
 Definition strip_suffix (s suf : text) : option text :=
@@ -388,17 +414,18 @@ Definition domain_matches (host pattern : text) : bool :=
   negb (is_empty pattern) &&
   (text_eqb host p ||
    match p with
-   | c :: rest => text_eqb [c] dot && (text_eqb host rest || match strip_suffix host p with Some _ => true | None => false end)
+   | c :: rest => (c =? 46) && (text_eqb host rest || match strip_suffix host p with Some _ => true | None => false end)
    | [] => false
    end).
 
 Inductive claim := NoOrigin | NullOrigin | Claims (o : text).
 
+(* Origin (the last of a space separated list), else Referer *)
 Definition spec_claim (r : request) : claim :=
-  match header_get origin_header r with
+  match header_get s_origin_hdr r with
   | Some o =>
-      let item := if origin_pick_last then last (split_on (hd 32 origin_sep) o) [] else hd [] (split_on (hd 32 origin_sep) o) in
-      if is_empty item then NoOrigin else if text_eqb item null_origin then NullOrigin else Claims item
+      let item := last (split_on 32 o) [] in
+      if is_empty item then NoOrigin else if text_eqb item s_null then NullOrigin else Claims item
   | None =>
       match env_get lit_HTTP_REFERER r with
       | Some (c :: o) => Claims (c :: o)
@@ -406,18 +433,23 @@ Definition spec_claim (r : request) : claim :=
       end
   end.
 
+(* the request's own host: the domain, with the port unless it is 80 or 443 *)
+Definition spec_own_host (r : request) : text :=
+  let port := req_host_port r in
+  if text_eqb port s_80 || text_eqb port s_443 then req_domain r else req_domain r ++ [58] ++ port.
+
 Definition spec_trusted (settings : list text) (caller : option (list text)) (r : request) : list text :=
-  own_host r :: match caller with Some l => l | None => aslist settings end.
+  spec_own_host r :: match caller with Some l => l | None => aslist settings end.
 
 Definition spec_origin_ok (settings : list text) (caller : option (list text)) (allow : bool) (r : request) : bool :=
-  if text_eqb (req_scheme r) https_req then
+  if text_eqb (req_scheme r) s_https then
     match spec_claim r with
     | NoOrigin => allow
-    | NullOrigin => mem_text null_origin (spec_trusted settings caller r)
+    | NullOrigin => mem_text s_null (spec_trusted settings caller r)
     | Claims o =>
         match urlparse_m (r_v6 r) o with
         | PUrl scheme netloc =>
-            text_eqb scheme https_origin && existsb (domain_matches netloc) (spec_trusted settings caller r)
+            text_eqb scheme s_https && existsb (domain_matches netloc) (spec_trusted settings caller r)
         | _ => false
         end
     end
@@ -437,7 +469,7 @@ Definition spec_token_ok (s : storage) (token header : option text) (r : request
   text_eqb (spec_supplied token header r) (expected_token s r).
 
 Definition spec_in_force (c : config) : bool :=
-  let o := effective c in
+  let o := spec_effective c in
   match c_explicit c with
   | Some true => truthy (o_token o) || truthy (o_header o)
   | Some false => false
@@ -445,12 +477,12 @@ Definition spec_in_force (c : config) : bool :=
   end.
 
 Definition spec_checked (c : config) (r : request) : bool :=
-  spec_in_force c && negb (mem_text (req_method r) (o_safe (effective c)))
-  && (if o_callback (effective c) then r_cb r else true).
+  spec_in_force c && negb (mem_text (req_method r) (o_safe (spec_effective c)))
+  && (if o_callback (spec_effective c) then r_cb r else true).
 
 (* does the body run *)
 Definition spec_runs (c : config) (r : request) : bool :=
-  let o := effective c in
+  let o := spec_effective c in
   if spec_checked c r then
     (if o_check_origin o then spec_origin_ok (c_settings c) None (o_allow_no_origin o) r else true)
     && spec_token_ok (c_storage c) (o_token o) (o_header o) r
@@ -458,8 +490,8 @@ Definition spec_runs (c : config) (r : request) : bool :=
 
 (* tokens are sequences of Unicode scalar values (true of anything that arrives over HTTP) *)
 Definition wf_tokens (c : config) (r : request) : bool :=
-  let o := effective c in
-  forallb valid_scalar (expected_token (c_storage c) r) && forallb valid_scalar (supplied_token (o_token o) (o_header o) r).
+  let o := spec_effective c in
+  forallb valid_scalar (expected_token (c_storage c) r) && forallb valid_scalar (spec_supplied (o_token o) (o_header o) r).
 
 (* the urllib fragment answers for the claimed origin *)
 Definition parse_defined (r : request) : bool :=
@@ -543,9 +575,10 @@ Definition run_C12 (v : val) : val :=
                      put_overdict ov]) (combine rs hist));
           vopt vtexts caller';
           VL (map (fun r =>
+                 let so := spec_effective c in
                  VL [vbool (spec_runs c r);
-                     vbool (spec_token_ok (c_storage c) (o_token o) (o_header o) r);
-                     vbool (spec_origin_ok (c_settings c) caller (o_allow_no_origin o) r);
+                     vbool (spec_token_ok (c_storage c) (o_token so) (o_header so) r);
+                     vbool (spec_origin_ok (c_settings c) caller (o_allow_no_origin so) r);
                      vbool (wf_tokens c r); vbool (parse_defined r)]) rs)])
     | _ => None
     end).
